@@ -489,13 +489,12 @@ func runC02(c *kit.Ctx) {
 	}
 
 	// ---- R7 ---------------------------------------------------------------
-	c.StartRule("R7", "batch results are stored in the slot of the call they belong to (the positional rules of C07, run as one rule here)", 20)
-	c.Frozen = true
-	runC07(c)
-	c.Frozen = false
+	embed(c, "R7", "batch results are stored in the slot of the call they belong to (the positional rules of C07, run as one rule here)", 20, runC07)
+	embed(c, "R8", "a call handed to a connection is completed exactly once, by whoever took it out of the sent table, and the pending batch object is never shared (the rules of C03, run as one rule here)", 30, runC03)
 
 	// ---- R6 ---------------------------------------------------------------
 	c.StartRule("R6", "cellblock cursor discipline", 3)
+	multiDecodesEveryResult(c)
 	{
 		eng := bounds.New(p)
 		type dec struct{ rel, recv, name string }
